@@ -31,11 +31,12 @@ var verifSlotKinds = []string{"loop", "while", "for", "block", "if", "else", "ma
 var verifExitKinds = []string{"break", "continue", "return", "throw", "fatal"}
 
 type verifNestGen struct {
-	slots  []int
-	exit   int
-	helper string // extra functions (for "call" slots)
-	nfn    int
-	guard  string // loop-guard counter declarations
+	slots    []int
+	exit     int
+	exitForm int    // 0: `if p { exit }`, 1: `if !p { ... } else { exit }`
+	helper   string // extra functions (for "call" slots)
+	nfn      int
+	guard    string // loop-guard counter declarations
 }
 
 func (g *verifNestGen) exitStmt() string {
@@ -62,6 +63,10 @@ func (g *verifNestGen) body(lvl int, inLoop bool) (string, bool) {
 		ek := verifExitKinds[g.exit]
 		if (ek == "break" || ek == "continue") && !inLoop {
 			return "", false // would be rejected by the analyzer: not part of this family
+		}
+		if g.exitForm == 1 {
+			// the exit sits in the else branch, the then branch completes normally
+			return ind + "if !p { println(\"stay\"); } else { " + g.exitStmt() + " }\n", true
 		}
 		return ind + "if p { " + g.exitStmt() + " }\n", true
 	}
@@ -178,7 +183,8 @@ func VerifHarness_Nest() {
 	D := errors.VerifParam("D", 2)
 	d := errors.VerifNdIntRange("depth", 1, D)
 	g := &verifNestGen{exit: errors.VerifNdIntRange("exit", 0, len(verifExitKinds)-1)}
-	tag := ""
+	g.exitForm = errors.VerifNdIntRange("exitForm", 0, 1)
+	tag := fmt.Sprintf("form%d:", g.exitForm)
 	for i := 0; i < d; i++ {
 		s := errors.VerifNdIntRange(fmt.Sprintf("slot%d", i), 0, len(verifSlotKinds)-1)
 		g.slots = append(g.slots, s)
